@@ -1,5 +1,6 @@
 import Nstd.Common.Basic
-import Nstd.Variant.Model
+import Nstd.Variant.Spec
+import Nstd.Variant.Deep
 import Nstd.Variant.Ieee
 /-
   Line protocol of the Variant area (6 variables).
@@ -17,7 +18,8 @@ import Nstd.Variant.Ieee
     <lit>  = n | b0 | b1 | d<16 hex digits> | i<int> | u<nat> | l<int> | q<nat> | s<hex>
 
   Observation after every op, for every variable:
-     `<type> <toBool> <toInt> <toUInt> <toInt64> <toUInt64> <toDouble is zero: z|n> <toString hex> <value>`
+     `<type> <toBool> <toInt> <toUInt> <toInt64> <toUInt64> <toDouble is zero: z|n> <toString hex> <value> <value with refs>`
+  (`<value with refs>`: every boxed Variant, nested ones included, carries `#<data->ref>` of its block),
   joined by ` | `, then ` # ` and the 6×6 matrix of `==` (row-major, `0`/`1`/`?`).
   `?` = the real code evaluates a double→integer cast that C leaves undefined.
 -/
@@ -155,14 +157,32 @@ def eqChar : Option Bool → String
   | some false => "0"
   | none => "?"
 
-def obs (s : State) : String :=
+open Deep in
+/-- the value with the reference count of every block: `L#2[i1,s#1:6162]` -/
+def renderRefs : Nat → Deep.DState → Cell → String
+  | 0, _, _ => "!depth"
+  | f + 1, s, c =>
+    match c with
+    | .null => "n"
+    | .inl x => render x
+    | .ptr b =>
+      (match s.heap b with
+       | none => "!dangling"
+       | some blk =>
+         (match blk.pay with
+          | .str t => s!"s#{blk.ref}:" ++ toHex t
+          | .list cs => s!"L#{blk.ref}[" ++ ",".intercalate (cs.map (renderRefs f s)) ++ "]"
+          | .array cs => s!"A#{blk.ref}[" ++ ",".intercalate (cs.map (renderRefs f s)) ++ "]"
+          | .map m => s!"M#{blk.ref}" ++ "{" ++ ",".intercalate (m.map (fun p => toHex p.1 ++ ":" ++ renderRefs f s p.2)) ++ "}"))
+
+def obs (s : Deep.DState) : String :=
   let vals := (List.range nvars).map s.read
-  " | ".intercalate (vals.map obsVar) ++ " # " ++
+  " | ".intercalate ((List.range nvars).map (fun v => obsVar (s.read v) ++ " " ++ renderRefs (s.next + 1) s (s.vars v))) ++ " # " ++
     String.join (vals.map (fun a => String.join (vals.map (fun b => eqChar (veq ieee a b)))))
 
-def stepLine (s : State) (ws : List String) : State × String :=
+def stepLine (s : Deep.DState) (ws : List String) : Deep.DState × String :=
   match ws with
-  | ["reset"] => (init, obs init)
+  | ["reset"] => (Deep.dinit, obs Deep.dinit)
   | ["selfapp", k] =>
     -- finding "self-append": outside the precondition `mutOk` of the model; the line answers with
     -- what the specification (value semantics: the appended copy is the old value) prescribes
@@ -174,10 +194,15 @@ def stepLine (s : State) (ws : List String) : State × String :=
     match parseOp ws with
     | none => (s, "bad-op")
     | some op =>
-      match step ieee s op with
-      | some s' => (s', obs s')
+      -- the line is valid iff the specification accepts it on the current values
+      -- (what the harness checks on the const view before it touches anything)
+      match specStep ieee s.read op with
       | none => (s, "bad-op")
+      | some _ =>
+        match Deep.dstep ieee s op with
+        | some s' => (s', obs s')
+        | none => (Deep.dinit, "FAULT")
 
 end Nstd.Variant
 
-def main : IO Unit := Nstd.Common.ioLoop Nstd.Variant.init Nstd.Variant.stepLine
+def main : IO Unit := Nstd.Common.ioLoop Nstd.Variant.Deep.dinit Nstd.Variant.stepLine
